@@ -1,5 +1,6 @@
 """C14 -- map rotation, placement, windowing, symmetrisation share one active convention"""
 from .common import *
+from . import C05 as _c05
 from .maskmodel import read_summary
 
 TITLE = "Map rotation, placement, windowing, symmetrisation share one active convention"
@@ -271,6 +272,8 @@ def _obligations():
         Obligation("O14.1", "rotate: affine_transform receives the pull-back [[R^T, c - R^T c],[0,1]], c = floor(shape/2)", o141, floor=12),
         Obligation("O14.2", "place_object: rotation/position/colour of the same particle, transpose_rotation, surroundings kept", o142, floor=6),
         Obligation("O14.4", "symmetrize_volume: copies rotated by k*360/n about z for all n, initialised sum, divided by n", o144, floor=40),
+        Obligation("O14.3", "shift_positions uses the same active convention: shift += R*s with the particle's own orientation (shared with C05)",
+                   _c05.o54, floor=6),
         Obligation("O14.5", "get_start_end_indices closed forms; extract_subvolume fills with the volume mean", o145, floor=14),
     ]
 
